@@ -43,6 +43,14 @@ CLAIMS = {
          "DESIGN.md 5 C18",
          "Sufficient structural condition: inherited tracers and the event-emitting code are clones of the reference or embed it with insertions that cannot execute without Aspect events; start/enter events are closed on every path; fork-only JSON fields are omitted when empty.",
          "JS tracers are absent from the fork; output when Aspects are involved is C19. " + TRUST),
+ "C16": ("map-order lint over every range-on-map site (clone sites by reference agreement, fork-only sites by body classification / collect-then-sort idiom); SSA use inventory of shared big-number constants; SSA global-write and receiver-write inventories; constructor freshness",
+         "DESIGN.md 5 C16",
+         "Structural necessary conditions of determinism: no Go map iteration order reaches a result in fork-only/modified code; shared package-level 256-bit constants are never written or leaked; nothing outside package initialisation writes a package-level variable; each EVM gets a recorder allocated in its own constructor call and nothing else writes the recorder fields.",
+         "does not decide determinism of StateDB, the Aspect runtime or crypto (external), nor value-level equality of two runs. " + TRUST),
+ "C17": ("ownership argument: SSA shared-constant / global-write / receiver-write inventories, clone rule on the table/pool/abort code, type facts on the abort flag and the stack pool",
+         "DESIGN.md 5 C17",
+         "Structural sufficient condition for absence of fork-introduced data races between EVM instances: fork code shares no mutable package-level state, shared precompile instances never write their receiver, the code touching the shared tables, pool and abort flag is the reference's, the abort flag is a sync/atomic.Bool accessed only through its methods.",
+         "does not decide races inside StateDB or the Aspect runtime, nor how promptly a cancelled execution stops (timing). " + TRUST),
 }
 
 NA = {}
